@@ -22,7 +22,7 @@ def split(raw, hlen):
 
 def worker(version, args):
     import hashlib
-    common.lib_setup()
+    common.lib_setup(xs_check=True)
     from AoE2ScenarioParser.scenarios.aoe2_de_scenario import AoE2DEScenario
     rng = random.Random(f"C01:{args['seed']}:{version}")
     R = common.Result(RULE); R.export_keys = True
